@@ -100,6 +100,20 @@ def extract_assignments(func, name, params, returns, targets):
     fd = ast.parse(textwrap.dedent(inspect.getsource(f))).body[0]
     picked = []
     for st in fd.body:
+        if isinstance(st, ast.For):
+            # a top-level loop belongs to the slice if it stores into one of the targets (e.g. `arr0[...] = True`)
+            stored = set()
+            for node in ast.walk(st):
+                if isinstance(node, (ast.Assign, ast.AugAssign)):
+                    for t in (node.targets if isinstance(node, ast.Assign) else [node.target]):
+                        base = t
+                        while isinstance(base, ast.Subscript):
+                            base = base.value
+                        if isinstance(base, ast.Name):
+                            stored.add(base.id)
+            if stored & set(targets):
+                picked.append(st)
+            continue
         if isinstance(st, (ast.Assign, ast.AugAssign)):
             tg = st.targets if isinstance(st, ast.Assign) else [st.target]
             names = set()
@@ -112,6 +126,9 @@ def extract_assignments(func, name, params, returns, targets):
                 picked.append(st)
     if not picked:
         raise LookupError("no top-level assignment to %s in %s" % (sorted(targets), fd.name))
+    picked = [_SelfToNames().visit(st) for st in picked]
+    for st in picked:
+        ast.fix_missing_locations(st)
     body = "\n".join(textwrap.indent(ast.unparse(st), "    ") for st in picked)
     src = "def %s(%s):\n%s\n    return %s\n" % (name, ", ".join(params), body, ", ".join(returns))
     return src, "", picked[0].lineno
